@@ -66,12 +66,25 @@ static int nout;
 static int used;             /* at least one buffer was ever granted */
 static unsigned next_id;     /* NOT in canon, see header comment */
 
+static int g_eh;        /* configuration "-eh": the error handler is a client of the ring (see eh_fn) */
+static int g_in_call;   /* inside a library acquire call */
+static int g_eh_fired;  /* the handler already acted in this call */
+static void eh_fn(int err, void *ctx);
+
 /* ---- op alphabet ---- */
 static int op_release;       /* = S+1 */
 static int n_ops;
 static struct {
     uint8_t min, n;
 } upto_tab[MAXOPS];
+/* requests at the top of size_t ("whatever is left"): arithmetic on the requested size must not wrap (added after a seeded
+ * change whose clamp computed requested_size + 1).  min code: 0 = 1, 1 = S, 2 = SIZE_MAX; n code: 0 = SIZE_MAX, 1 = SIZE_MAX - 1 */
+static const struct {
+    uint8_t upto, min_code, n_code;
+} big_tab[5] = {{0, 0, 0}, {1, 0, 0}, {1, 0, 1}, {1, 1, 0}, {1, 2, 0}};
+static int op_big; /* first of the five */
+static size_t big_min(int k) { return big_tab[k].min_code == 0 ? 1 : big_tab[k].min_code == 1 ? S : SIZE_MAX; }
+static size_t big_n(int k) { return big_tab[k].n_code == 0 ? SIZE_MAX : SIZE_MAX - 1; }
 
 /* ---- exact per-transition vacuity accounting (flushed in teardown, only for the NEW transition) ---- */
 enum {
@@ -96,6 +109,9 @@ static void m_reset(void) {
     next_id = 0;
     g_steps = 0;
     g_last_enabled = 0;
+    g_in_call = 0;
+    g_eh_fired = 0;
+    aws_set_thread_local_error_handler_fn(g_eh ? eh_fn : NULL, NULL);
     memset(ev, 0, sizeof(ev));
     if (aws_ring_buffer_init(&rb, a, S) != AWS_OP_SUCCESS) {
         fprintf(stderr, "ring init failed\n");
@@ -150,7 +166,11 @@ static bool m_enabled(int op) {
 static void m_opname(int op, char *buf, size_t cap) {
     if (op < op_release) snprintf(buf, cap, "acquire(%d)", op + 1);
     else if (op == op_release) snprintf(buf, cap, "release(oldest)");
-    else if (op < n_ops) snprintf(buf, cap, "acquire_up_to(min=%d,n=%d)", upto_tab[op].min, upto_tab[op].n);
+    else if (op < op_big) snprintf(buf, cap, "acquire_up_to(min=%d,n=%d)", upto_tab[op].min, upto_tab[op].n);
+    else if (op < n_ops && !big_tab[op - op_big].upto) snprintf(buf, cap, "acquire(SIZE_MAX)");
+    else if (op < n_ops)
+        snprintf(buf, cap, "acquire_up_to(min=%s,n=SIZE_MAX%s)", big_tab[op - op_big].min_code == 0 ? "1" : big_tab[op - op_big].min_code == 1 ? "S" : "SIZE_MAX",
+                 big_tab[op - op_big].n_code ? "-1" : "");
     else snprintf(buf, cap, "op%d", op);
 }
 
@@ -197,6 +217,33 @@ static void do_release(void) {
     check_invariant("release(oldest)");
 }
 
+/* configuration "-eh": the thread has an error handler that is itself a client of the ring (it takes one byte for an
+ * error record whenever the library raises an error inside an acquire call, at most once per call).  Whenever the library
+ * calls it, the ring has to be in a state in which that nested acquire is just another operation: its buffer is recorded
+ * like any other and the outer call's result must be disjoint from it (added after a seeded change whose acquire_up_to
+ * raised - and recovered from - an error halfway through, then granted from the snapshot taken before) */
+static void record_grant(struct aws_byte_buf dest, const char *nm, size_t head_before);
+static void eh_fn(int err, void *ctx) {
+    (void)err;
+    (void)ctx;
+    if (!g_eh || !g_in_call || g_eh_fired) return;
+    g_eh_fired = 1;
+    struct aws_byte_buf rec;
+    AWS_ZERO_STRUCT(rec);
+    size_t hb = head_off();
+    g_in_call = 0; /* the nested refusal raises again: do not recurse */
+    int rc = aws_ring_buffer_acquire(&rb, 1, &rec);
+    g_in_call = 1;
+    if (rc == AWS_OP_SUCCESS && !esx_failed) {
+        V_COUNT("error_handler_nested_grants", 1);
+        if (rec.capacity != 1 || rec.buffer < base || rec.buffer >= base + S) {
+            esx_fail("outside-storage", "error handler's nested acquire(1) granted %zu bytes at offset %td", rec.capacity, rec.buffer ? rec.buffer - base : (ptrdiff_t)-1);
+            return;
+        }
+        record_grant(rec, "acquire(1) from the error handler", hb);
+    }
+}
+
 static void do_acquire(int is_upto, size_t min, size_t n, const char *nm) {
     struct aws_byte_buf dest;
     AWS_ZERO_STRUCT(dest);
@@ -215,7 +262,16 @@ static void do_acquire(int is_upto, size_t min, size_t n, const char *nm) {
     }
     size_t head_before = head_off();
     aws_reset_error();
+    g_in_call = 1;
+    g_eh_fired = 0;
+    int nout_before = nout;
     int rc = is_upto ? aws_ring_buffer_acquire_up_to(&rb, min, n, &dest) : aws_ring_buffer_acquire(&rb, n, &dest);
+    g_in_call = 0;
+    if (esx_failed) return;
+    if (nout != nout_before) { /* the error handler took a byte during the call: the vacuity bookkeeping above is stale */
+        used_bytes = S;
+        gap = 0;
+    }
 
     if (rc != AWS_OP_SUCCESS && rc != AWS_OP_ERR) {
         esx_fail("return-code", "%s returned %d", nm, rc);
@@ -226,7 +282,7 @@ static void do_acquire(int is_upto, size_t min, size_t n, const char *nm) {
         size_t need = is_upto ? min : n;
         if (S - used_bytes >= need) ev[EV_REFUSE_TOTAL_OK] = 1;
         if (gap >= need) ev[EV_REFUSE_GAP_OK] = 1;
-        if (nout == 0 && n <= S) {
+        if (nout_before == 0 && n <= S) {
             if (used && n == S)
                 esx_fail("capacity-not-restored", "%s refused (error %d) although every buffer has been released: full capacity %zu is not available again (head %zu, tail %zu)",
                          nm, aws_last_error(), S, head_off(), tail_off());
@@ -257,6 +313,24 @@ static void do_acquire(int is_upto, size_t min, size_t n, const char *nm) {
     ESX_CHECK(off >= 0 && (size_t)off <= S && len <= S - (size_t)off, "outside-storage", "%s granted [%td,%td) on a ring of %zu bytes", nm, off,
               off + (ptrdiff_t)len, S);
     if (esx_failed) return;
+    /* vacuity events */
+    if (nout > 0 && (size_t)off < head_before) ev[EV_WRAP] = 1;
+    if (nout == 0 && used) ev[EV_EMPTY_RESET] = 1;
+    if ((size_t)off + len == S) ev[EV_HEAD_AT_END] = 1;
+    if (is_upto && len < n) {
+        ev[EV_UPTO_PARTIAL] = 1;
+        if (nout > 0) ev[EV_UPTO_PARTIAL_NONEMPTY] = 1;
+        if (nout == 0 && n > S) ev[EV_UPTO_OVER_RING_GRANTED] = 1;
+    }
+    record_grant(dest, nm, head_before);
+    if (!esx_failed) check_invariant(nm);
+}
+
+/* a granted buffer (already known to lie inside the storage): disjoint from everything outstanding, then recorded and
+ * filled with its own byte */
+static void record_grant(struct aws_byte_buf dest, const char *nm, size_t head_before) {
+    ptrdiff_t off = dest.buffer - base;
+    size_t len = dest.capacity;
     for (int i = 0; i < nout; ++i) {
         const struct out *o = &fifo[i];
         if ((size_t)off < o->off + o->len && o->off < (size_t)off + len) {
@@ -272,16 +346,6 @@ static void do_acquire(int is_upto, size_t min, size_t n, const char *nm) {
         fprintf(stderr, "harness FIFO overflow\n");
         _exit(2);
     }
-    /* vacuity events */
-    if (nout > 0 && (size_t)off < head_before) ev[EV_WRAP] = 1;
-    if (nout == 0 && used) ev[EV_EMPTY_RESET] = 1;
-    if ((size_t)off + len == S) ev[EV_HEAD_AT_END] = 1;
-    if (is_upto && len < n) {
-        ev[EV_UPTO_PARTIAL] = 1;
-        if (nout > 0) ev[EV_UPTO_PARTIAL_NONEMPTY] = 1;
-        if (nout == 0 && n > S) ev[EV_UPTO_OVER_RING_GRANTED] = 1;
-    }
-    /* record + fill with this buffer's own byte */
     struct out *o = &fifo[nout++];
     o->buf = dest;
     o->off = (size_t)off;
@@ -289,7 +353,6 @@ static void do_acquire(int is_upto, size_t min, size_t n, const char *nm) {
     o->fill = (uint8_t)(1 + next_id++ % 250);
     memset(dest.buffer, o->fill, len);
     used = 1;
-    check_invariant(nm);
 }
 
 static void m_apply(int op) {
@@ -299,7 +362,8 @@ static void m_apply(int op) {
     m_opname(op, nm, sizeof(nm));
     if (op == op_release) do_release();
     else if (op < op_release) do_acquire(0, 0, (size_t)op + 1, nm);
-    else do_acquire(1, upto_tab[op].min, upto_tab[op].n, nm);
+    else if (op < op_big) do_acquire(1, upto_tab[op].min, upto_tab[op].n, nm);
+    else do_acquire(big_tab[op - op_big].upto, big_tab[op - op_big].upto ? big_min(op - op_big) : 0, big_n(op - op_big), nm);
 }
 
 static size_t m_canon(uint8_t *b, size_t cap) {
@@ -320,9 +384,10 @@ static struct esx_model model = {
     .reset = m_reset, .enabled = m_enabled, .apply = m_apply, .canon = m_canon, .opname = m_opname, .teardown = m_teardown,
 };
 
-static void set_size(size_t s) {
+static void set_size(size_t s, int eh) {
     S = s;
-    snprintf(g_name, sizeof(g_name), "ring-s%zu", s);
+    g_eh = eh;
+    snprintf(g_name, sizeof(g_name), "ring-s%zu%s", s, eh ? "-eh" : "");
     model.name = g_name;
     op_release = (int)s + 1;
     int k = op_release + 1;
@@ -332,6 +397,8 @@ static void set_size(size_t s) {
             upto_tab[k].n = (uint8_t)n;
             ++k;
         }
+    op_big = k;
+    k += 5;
     n_ops = k;
     model.nops = k;
     model.max_depth = ESX_MAX_DEPTH; /* run to the fixpoint */
@@ -342,16 +409,18 @@ int main(int argc, char **argv) {
     aws_common_library_init(aws_default_allocator());
     size_t max_s = v_thorough() ? 12 : 8;
     int rc = 0;
-    for (size_t s = 1; s <= MAXS - 2; ++s) {
-        set_size(s);
-        if (v_replay_token) {
-            if (esx_token_is_for(v_replay_token, g_name)) rc |= esx_replay(&model, v_replay_token);
-            continue;
+    for (int eh = 0; eh < 2; ++eh)
+        for (size_t s = 1; s <= MAXS - 2; ++s) {
+            set_size(s, eh);
+            if (v_replay_token) {
+                if (esx_token_is_for(v_replay_token, g_name)) rc |= esx_replay(&model, v_replay_token);
+                continue;
+            }
+            if (s > (eh ? max_s - 2 : max_s)) break;
+            esx_run(&model);
+            ESX_CYCLES(&model);
         }
-        if (s > max_s) break;
-        esx_run(&model);
-        ESX_CYCLES(&model);
-    }
+    aws_set_thread_local_error_handler_fn(NULL, NULL);
     v_finish();
     return (v_sh->viol_count || rc) ? 1 : 0;
 }
